@@ -181,19 +181,7 @@ def run(tier):
         with open(op, "w") as f:
             for o2 in recs:
                 f.write(json.dumps(o2) + "\n")
-        # options of the wrong kind, and the codecs applied on a set block / as a filter section: an error value, never a panic
-    ojobs = []
-    for call in ("b64_encode(url_safe=1)", "b64_encode(padded='no')", "b64_decode(url_safe=1)", "b64_decode(url_safe=none)", "json_encode(pretty='true')", "json_encode(pretty=none)", "urlencode(x=1)",
-                 "slug(x=1)", "b64_encode(url_safe=true, padded=false)", "b64_decode", "json_encode(pretty=true)", "urlencode", "urlencode_strict", "slug"):
-        for form in ("{{ v | %s }}", "{%% set y | %s %%}a b{%% endset %%}{{ y }}", "{%% filter %s %%}a b{%% endfilter %%}", "{%% set_global y | %s | %s %%}YQ{%% endset %%}{{ y }}"):
-            for val in ("a b", "YQ==", [1], None):
-                ojobs.append({"cfg": {"contrib": True}, "ctx": {"v": val}, "steps": [{"op": "render_str", "src": form % ((call,) * form.count("%s")), "auto": False}]})
-    for oj, orr in zip(ojobs, vp.run_jobs(ojobs, tag="c20-opts")):
-        C.count()
-        C.nontrivial(["opts", oj["steps"][0]["src"], str(oj["ctx"]["v"])])
-        if orr[0].get("panic") or orr[0].get("abort"):
-            C.violation({"kind": "panic-options", "src": oj["steps"][0]["src"]}, "panic: %s with %r: %s" % (oj["steps"][0]["src"], oj["ctx"]["v"], orr[0].get("msg")), {"job": oj})
-    r = vp.tlc("MC_Codecs", "MC_Codecs", env={"OBS": op}, workers=16, timeout=6000, name="c20", xmx="24g", allow_fail=True)
+        r = vp.tlc("MC_Codecs", "MC_Codecs", env={"OBS": op}, workers=16, timeout=6000, name="c20", xmx="24g", allow_fail=True)
         tries += 1
     if r.ok:
         C.cov["traces_validated_against_impl"] = len(recs)
